@@ -140,7 +140,14 @@ def run(tier, report):
     folder = core.workdir("c18")
     rng = core.rng(18)
     try:
+        trace_path = os.path.join(folder, "cli_trace.ndjson")
         for storage in ("csv", "ods", "xlsx"):
+            if storage == "csv":
+                from harness import tracelib
+                tracelib.enable_hooks(trace_path)  # what the command line makes the readers do is validated against Session.tla
+            else:
+                from harness import tracelib
+                tracelib.disable_hooks()
             paths = materialise(os.path.join(folder, storage), storage) if os.makedirs(os.path.join(folder, storage), exist_ok=True) is None else None
             api_verdicts(report, paths, storage)
             chosen = vectors if (storage == "csv" or tier == "thorough") else rng.sample(vectors, 700)
@@ -170,6 +177,10 @@ def run(tier, report):
                     if code != vec["exit"]:
                         report.violation("c18", dict(vec, storage=storage), vec["exit"], code,
                                          "subprocess: exit code %r but must be %r for %s" % (code, vec["exit"], vec))
+        from harness import tracelib, trace_drivers
+        tracelib.disable_hooks()
+        if os.path.exists(trace_path):
+            trace_drivers.validate_file(report, trace_path, "readers driven by applications.main (csv storage, every behaviour)")
         if not report.violations:
             vec = dict(vectors[0])
             vec["exit"] = 7
